@@ -80,4 +80,11 @@ def qsa_ctrl_tags_view(t):
 def qsa_ctrl_set_inds(t, inds):
     # C02 rename-notifies control: bypassing the notifying setter
     t._set_inds(inds)
+
+
+def qsa_ctrl_requested_order(psi, keep):
+    # C13 requested-order control: index order taken from a set of the sites
+    keep = set(keep)
+    k_inds = tuple(map(psi.site_ind, keep))
+    return psi.to_dense(k_inds)
 '''
